@@ -9,10 +9,20 @@
 // differently, and with more than 12 events so that slices.SortFunc is not the stable insertion sort), near-ties (a
 // well-formed tied list with one kind changed) and arbitrary lists; queries at, just below and just above a tied version.
 // -tier thorough first enumerates EVERY well-formed list of length <= 5 over 7 ranks, tied ones in every listing order.
+//
+// Second entry point (match.go): `match …` cases run the real remediation.MatchVuln on a record whose affected[] entries carry
+// their own severities, so that the entry vulns.IsAffected selects for the vulnerable package of each subgraph decides the
+// score and with it the filter's answer; the answer is also taken at a fixed profile of thresholds (prof=) so that the selected
+// score itself is observable. `vkpkg …` cases observe vulns.VKToPackage and its mock extractor.
+//
+//	match <minSeverity*100> <maxDepth> <devDeps> <devOnly> <ignoreIds|-> <id> <aliases|-> <topSev|-> <nSub> { <eco> <name> <version> <rootDistance> }
+//	      <nAffected> { <eco> <name> <versions|-> <sev|-> <nRanges> { <E|S|O> <events|-> } }
+//	vkpkg <system> <hex name> <hex version>
 package main
 
 import (
 	"fmt"
+	"math"
 	"math/rand"
 	"os"
 	"strconv"
@@ -20,6 +30,7 @@ import (
 
 	"deps.dev/util/resolve"
 	"github.com/google/osv-scalibr/guidedremediation"
+	"github.com/google/osv-scalibr/guidedremediation/options"
 	"github.com/ossf/osv-schema/bindings/go/osvschema"
 
 	"verif/harness/hx"
@@ -515,6 +526,360 @@ func exhaustive(emit func(tcase)) {
 	rec(nil)
 }
 
+// ---------------------------------------------------------------- match.go: MatchVuln
+
+// sevTable: index -> severity; sevTenths = round(10 * CalculateScore) or -1000 for "error, skipped" (asserted at start-up;
+// mirrored by `sevScore` in lean/Drivers/C18.lean).
+var sevTable = []osvschema.Severity{
+	{Type: "CVSS_V3", Score: "CVSS:3.1/AV:N/AC:L/PR:N/UI:N/S:U/C:H/I:H/A:H"},
+	{Type: "CVSS_V3", Score: "CVSS:3.1/AV:N/AC:L/PR:N/UI:N/S:U/C:N/I:N/A:H"},
+	{Type: "CVSS_V3", Score: "CVSS:3.0/AV:N/AC:L/PR:N/UI:R/S:C/C:L/I:L/A:N"},
+	{Type: "CVSS_V3", Score: "CVSS:3.1/AV:L/AC:H/PR:L/UI:N/S:U/C:L/I:N/A:N"},
+	{Type: "CVSS_V2", Score: "AV:N/AC:L/Au:N/C:P/I:P/A:P"},
+	{Type: "CVSS_V4", Score: "CVSS:4.0/AV:N/AC:L/AT:N/PR:N/UI:N/VC:H/VI:H/VA:H/SC:N/SI:N/SA:N"},
+	{Type: "CVSS_V3", Score: "garbage"},
+	{},
+	{Type: "Ubuntu", Score: "high"},
+	{Type: "CVSS_V3", Score: "CVSS:3.1/AV:N/AC:L/PR:N/UI:N/S:U/C:N/I:N/A:N"},
+	{Type: "CVSS_V3", Score: "CVSS:3.1/AV:N/AC:H/PR:N/UI:R/S:U/C:L/I:L/A:N"},
+}
+var sevTenths = []int{98, 75, 61, 25, 75, 93, -1000, -10, -1000, 0, 42}
+var profile = []int{1, 250, 420, 610, 750, 930, 980, 990}
+
+func checkSevTable() {
+	for i, s := range sevTable {
+		f, err := guidedremediation.VerifSeverityScore(s)
+		got := int(math.Round(10 * f))
+		if err != nil {
+			got = -1000
+		}
+		if got != sevTenths[i] {
+			fmt.Fprintf(os.Stderr, "severity table entry %d scores %d, the table says %d\n", i, got, sevTenths[i])
+			os.Exit(2)
+		}
+	}
+	for h := 0; h <= 1100; h++ {
+		if int(math.Round(10*(float64(h)/100))) != (h+5)/10 {
+			fmt.Fprintf(os.Stderr, "threshold %d/100 does not round as modelled\n", h)
+			os.Exit(2)
+		}
+	}
+}
+
+type msub struct{ eco, name, ver, dist int }
+type maff struct {
+	aff
+	sev []int
+}
+type mcase struct {
+	minH, maxDepth   int
+	devDeps, devOnly bool
+	ignore           []int
+	id               int
+	aliases, top     []int
+	subs             []msub
+	affs             []maff
+}
+
+func ints(xs []int) string {
+	ss := make([]string, len(xs))
+	for i, x := range xs {
+		ss[i] = strconv.Itoa(x)
+	}
+	return hx.Join(ss, ".")
+}
+
+func unints(s string) []int {
+	if s == "-" || s == "" {
+		return nil
+	}
+	var out []int
+	for _, v := range strings.Split(s, ".") {
+		n, err := strconv.Atoi(v)
+		must(err)
+		out = append(out, n)
+	}
+	return out
+}
+
+func (c mcase) line() string {
+	var sb strings.Builder
+	fmt.Fprintf(&sb, "match %d %d %s %s %s %d %s %s %d", c.minH, c.maxDepth, hx.B(c.devDeps), hx.B(c.devOnly), ints(c.ignore), c.id, ints(c.aliases), ints(c.top), len(c.subs))
+	for _, s := range c.subs {
+		fmt.Fprintf(&sb, " %d %d %d %d", s.eco, s.name, s.ver, s.dist)
+	}
+	fmt.Fprintf(&sb, " %d", len(c.affs))
+	for _, a := range c.affs {
+		fmt.Fprintf(&sb, " %d %d %s %s %d", a.eco, a.name, ints(a.vers), ints(a.sev), len(a.ranges))
+		for _, r := range a.ranges {
+			es := make([]string, len(r.evs))
+			for i, e := range r.evs {
+				es[i] = fmt.Sprintf("%c:%d", e.k, e.v)
+			}
+			fmt.Fprintf(&sb, " %c %s", r.typ, hx.Join(es, ","))
+		}
+	}
+	return sb.String()
+}
+
+func parseMatch(l string) mcase {
+	t := strings.Split(l, " ")
+	at := func(i int) int { n, err := strconv.Atoi(t[i]); must(err); return n }
+	c := mcase{minH: at(1), maxDepth: at(2), devDeps: t[3] == "1", devOnly: t[4] == "1", ignore: unints(t[5]), id: at(6), aliases: unints(t[7]), top: unints(t[8])}
+	ns := at(9)
+	i := 10
+	for ; ns > 0; ns-- {
+		c.subs = append(c.subs, msub{at(i), at(i + 1), at(i + 2), at(i + 3)})
+		i += 4
+	}
+	na := at(i)
+	i++
+	for ; na > 0; na-- {
+		a := maff{aff: aff{eco: at(i), name: at(i + 1), vers: unints(t[i+2])}, sev: unints(t[i+3])}
+		nr := at(i + 4)
+		i += 5
+		for ; nr > 0; nr-- {
+			r := rng{typ: t[i][0]}
+			if t[i+1] != "-" {
+				for _, e := range strings.Split(t[i+1], ",") {
+					kv := strings.Split(e, ":")
+					n, err := strconv.Atoi(kv[1])
+					must(err)
+					r.evs = append(r.evs, ev{kv[0][0], n})
+				}
+			}
+			a.ranges = append(a.ranges, r)
+			i += 2
+		}
+		c.affs = append(c.affs, a)
+	}
+	return c
+}
+
+func osvAffected(a aff) osvschema.Affected {
+	oa := osvschema.Affected{Package: osvschema.Package{Ecosystem: ecoNames[a.eco], Name: pkgNames[a.eco][a.name]}}
+	for _, x := range a.vers {
+		oa.Versions = append(oa.Versions, spell(a.eco, x))
+	}
+	for _, r := range a.ranges {
+		or := osvschema.Range{Type: map[byte]osvschema.RangeType{'E': "ECOSYSTEM", 'S': "SEMVER", 'O': "GIT"}[r.typ]}
+		for _, e := range r.evs {
+			switch e.k {
+			case 'i':
+				or.Events = append(or.Events, osvschema.Event{Introduced: spell(a.eco, e.v)})
+			case 'f':
+				or.Events = append(or.Events, osvschema.Event{Fixed: spell(a.eco, e.v)})
+			case 'l':
+				or.Events = append(or.Events, osvschema.Event{LastAffected: spell(a.eco, e.v)})
+			}
+		}
+		oa.Ranges = append(oa.Ranges, or)
+	}
+	return oa
+}
+
+func sevs(ix []int) []osvschema.Severity {
+	var out []osvschema.Severity
+	for _, i := range ix {
+		out = append(out, sevTable[i])
+	}
+	return out
+}
+
+func vid(n int) string { return fmt.Sprintf("V-%d", n) }
+
+// runMatch executes the real MatchVuln, at the case's threshold and at the profile thresholds.
+func runMatch(c mcase) string {
+	return hx.Guard(func() string {
+		v := &osvschema.Vulnerability{ID: vid(c.id), Severity: sevs(c.top)}
+		for _, a := range c.aliases {
+			v.Aliases = append(v.Aliases, vid(a))
+		}
+		for _, a := range c.affs {
+			oa := osvAffected(a.aff)
+			oa.Severity = sevs(a.sev)
+			v.Affected = append(v.Affected, oa)
+		}
+		var subs []guidedremediation.VerifSubgraph
+		for _, s := range c.subs {
+			subs = append(subs, guidedremediation.VerifSubgraph{
+				Dep:          resolve.VersionKey{PackageKey: resolve.PackageKey{System: systems[s.eco], Name: pkgNames[s.eco][s.name]}, Version: spell(s.eco, s.ver), VersionType: resolve.Concrete},
+				RootDistance: s.dist,
+			})
+		}
+		opts := options.DefaultRemediationOptions()
+		opts.DevDeps = c.devDeps
+		opts.MaxDepth = c.maxDepth
+		for _, i := range c.ignore {
+			opts.IgnoreVulns = append(opts.IgnoreVulns, vid(i))
+		}
+		opts.MinSeverity = float64(c.minH) / 100
+		got := guidedremediation.VerifMatchVuln(opts, v, c.devOnly, subs)
+		prof := ""
+		for _, h := range profile {
+			opts.MinSeverity = float64(h) / 100
+			prof += hx.B(guidedremediation.VerifMatchVuln(opts, v, c.devOnly, subs))
+		}
+		return "match=" + hx.B(got) + " prof=" + prof
+	})
+}
+
+// matchCase: a record for one package whose affected[] entries split its versions into branches with severities of their own
+// (the usual shape of such records), plus entries for other packages / ecosystems, ill-formed and tied ranges.
+func matchCase(r *rand.Rand) mcase {
+	eco := r.Intn(3)
+	c := mcase{maxDepth: -1, devDeps: true, id: r.Intn(6)}
+	// subgraphs: the vulnerable package at one to three versions
+	for n := 1 + r.Intn(3); n > 0; n-- {
+		s := msub{eco: eco, name: 0, ver: pick(r, eco, 1+r.Intn(maxRank)), dist: 1 + r.Intn(4)}
+		if r.Intn(12) == 0 {
+			s.name = 1
+		}
+		if r.Intn(25) == 0 {
+			s.eco = 3
+		}
+		c.subs = append(c.subs, s)
+	}
+	if r.Intn(15) == 0 {
+		c.subs = nil
+	}
+	// affected entries
+	used := []int{}
+	cut := 1 + r.Intn(5)
+	for n, i := 1+r.Intn(3), 0; i < n; i++ {
+		a := maff{aff: aff{eco: eco, name: 0}}
+		if r.Intn(6) == 0 {
+			a.eco = r.Intn(4)
+		}
+		if r.Intn(6) == 0 {
+			a.name = r.Intn(2)
+		}
+		rg := rng{typ: "EEES"[r.Intn(4)]}
+		if r.Intn(12) == 0 {
+			rg.typ = 'O'
+		}
+		switch x := r.Intn(10); {
+		case x < 5: // branch i of the package: [cut, next)
+			next := cut + 1 + r.Intn(4)
+			rg.evs = []ev{{'i', cut}}
+			if cut == 1 && r.Intn(2) == 0 {
+				rg.evs[0].v = 0
+			}
+			if next <= maxRank {
+				if r.Intn(3) == 0 {
+					rg.evs = append(rg.evs, ev{'l', next - 1})
+				} else {
+					rg.evs = append(rg.evs, ev{'f', next})
+				}
+			}
+			if r.Intn(2) == 0 {
+				rg.evs[0], rg.evs[len(rg.evs)-1] = rg.evs[len(rg.evs)-1], rg.evs[0]
+			}
+			cut = next
+			if cut > maxRank {
+				cut = 1 + r.Intn(maxRank)
+			}
+		case x < 7:
+			rg.evs = relist(r, tieEvents(r, 2+r.Intn(5)), r.Intn(6))
+		case x < 9:
+			rg.evs = wfEvents(r, r.Intn(6))
+		default:
+			rg.evs = randEvents(r)
+		}
+		for j := range rg.evs {
+			if rg.evs[j].v != 0 {
+				rg.evs[j].v = pick(r, a.eco, rg.evs[j].v)
+			}
+		}
+		a.ranges = []rng{rg}
+		if r.Intn(8) == 0 {
+			a.ranges = append(a.ranges, rng{typ: 'E', evs: wfEvents(r, r.Intn(4))})
+		}
+		if r.Intn(8) == 0 && len(c.subs) > 0 { // explicit listing of a subgraph's version, in either spelling
+			a.vers = append(a.vers, pick(r, a.eco, c.subs[r.Intn(len(c.subs))].ver%100))
+		}
+		for k := r.Intn(3); k > 0; k-- {
+			s := r.Intn(len(sevTable))
+			a.sev = append(a.sev, s)
+			used = append(used, s)
+		}
+		c.affs = append(c.affs, a)
+	}
+	if r.Intn(6) == 0 {
+		for k := 1 + r.Intn(2); k > 0; k-- {
+			s := r.Intn(len(sevTable))
+			c.top = append(c.top, s)
+			used = append(used, s)
+		}
+	}
+	// threshold: on, just below / above a score in play
+	c.minH = r.Intn(1001)
+	if len(used) > 0 && r.Intn(6) != 0 {
+		if t := sevTenths[used[r.Intn(len(used))]]; t >= 0 {
+			c.minH = 10*t + []int{-10, -5, -4, 0, 0, 4, 5, 10}[r.Intn(8)]
+		}
+	}
+	if r.Intn(10) == 0 {
+		c.minH = 0
+	}
+	if c.minH < 0 {
+		c.minH = 0
+	}
+	if r.Intn(4) == 0 {
+		c.maxDepth = r.Intn(6)
+	}
+	c.devDeps = r.Intn(5) != 0
+	c.devOnly = r.Intn(5) == 0
+	for k := r.Intn(3); k > 0 && r.Intn(2) == 0; k-- {
+		c.aliases = append(c.aliases, r.Intn(6))
+	}
+	if r.Intn(5) == 0 {
+		for k := 1 + r.Intn(2); k > 0; k-- {
+			c.ignore = append(c.ignore, r.Intn(6))
+		}
+	}
+	return c
+}
+
+// ---------------------------------------------------------------- vulns.go: VKToPackage and the mock extractor
+
+var vkNames = []string{"p", "g:p", "org.example:artifact", "a:b:c", ":x", "x:", ":", "", "@scope/pkg", "Django", "grüße:ß"}
+
+func runVk(sys int, name, ver string) string {
+	return hx.Guard(func() string {
+		p := guidedremediation.VerifVKToPackage(resolve.VersionKey{PackageKey: resolve.PackageKey{System: systems[sys], Name: name}, Version: ver, VersionType: resolve.Concrete})
+		purl := "nil"
+		if u := p.Extractor.ToPURL(p); u != nil {
+			purl = u.Type + "|" + hx.Hex(u.Namespace) + "|" + hx.Hex(u.Name) + "|" + hx.Hex(u.Version)
+			if u.Subpath != "" || len(u.Qualifiers) != 0 {
+				purl += "|extra"
+			}
+		}
+		req := "nil"
+		if p.Extractor.Requirements() != nil {
+			req = "set"
+		}
+		return fmt.Sprintf("eco=%s name=%s ver=%s purl=%s stubs=%s|%s|%d", hx.Hex(p.Ecosystem()), hx.Hex(p.Name), hx.Hex(p.Version), purl, hx.Hex(p.Extractor.Name()), req, p.Extractor.Version())
+	})
+}
+
+func vkLine(sys int, name, ver string) string {
+	return fmt.Sprintf("vkpkg %d %s %s", sys, hx.Hex(name), hx.Hex(ver))
+}
+
+func runLine(l string) string {
+	switch {
+	case strings.HasPrefix(l, "match "):
+		return runMatch(parseMatch(l))
+	case strings.HasPrefix(l, "vkpkg "):
+		t := strings.Split(l, " ")
+		sys, err := strconv.Atoi(t[1])
+		must(err)
+		return runVk(sys, hx.UnHex(t[2]), hx.UnHex(t[3]))
+	}
+	return run(parseCase(l))
+}
+
 func main() {
 	o := hx.Parse()
 	out := hx.NewOut()
@@ -556,18 +921,29 @@ func main() {
 		fmt.Fprintf(os.Stderr, "only %d alternative spellings found: %v\n", nalt, alt)
 		os.Exit(2)
 	}
+	checkSevTable()
 	if o.Replay != "" {
 		for _, l := range hx.ReplayLines(o.Replay) {
-			out.Emit(l, run(parseCase(l)))
+			out.Emit(l, runLine(l))
 		}
 		return
 	}
 	if o.Tier == "thorough" {
 		exhaustive(func(c tcase) { out.Emit(c.line(), run(c)) })
 	}
+	for sys := 0; sys < 4; sys++ {
+		for _, n := range vkNames {
+			out.Emit(vkLine(sys, n, "1.0.0"), runVk(sys, n, "1.0.0"))
+		}
+	}
 	r := hx.Rng(o)
+	rm := rand.New(rand.NewSource(o.Seed + 7919)) // the match stream has its own source: the isaff stream of a seed stays what it was
 	for i := 0; i < o.N; i++ {
 		c := randCase(r)
 		out.Emit(c.line(), run(c))
+		if i%4 == 0 {
+			m := matchCase(rm)
+			out.Emit(m.line(), runMatch(m))
+		}
 	}
 }
